@@ -614,7 +614,7 @@ theorem scan_inl {s : Nat} {qs : List (Queue α)} {i0 i : Nat} {sc : Scan}
     · rename_i hq
       simp only [Sum.inl.injEq] at h
       subst h
-      exact ⟨Nat.le_refl _, q, by simp, by simpa using hq⟩
+      exact ⟨Nat.le_refl _, q, by simp, by have := hq; simp at this; exact this.2⟩
     · obtain ⟨h1, q', hq', hs⟩ := ih h
       refine ⟨by omega, q', ?_, hs⟩
       have : i - i0 = (i - (i0 + 1)) + 1 := by omega
